@@ -66,7 +66,7 @@ ASSUMPTIONS = [
     "start))^exponent within 1e-9 (cited paper + tests/callbacks_test.py)",
     "get_config round trip of quantized_hswish is not exercised here (C09)",
 ]
-BUDGET_S = {"quick": 50, "thorough": 840}
+BUDGET_S = {"quick": 45, "thorough": 840}
 REQUIRED_LABELS = {
     "quick": ["A", "A:ste", "A:noste", "A:linear", "A:f_mid", "A:auto_alpha",
               "A:var_ctor", "A:var_rebuild", "A:hyp",
@@ -303,8 +303,8 @@ def run_a(ctx):
     _count(ctx, "A")
     return oracle_a(ctx, case)
 
-  _chunked(ctx, "A", (1200 if ctx.quick else 24000) // ctx.n + 1,
-           25 if ctx.quick else 100,
+  _chunked(ctx, "A", (800 if ctx.quick else 24000) // ctx.n + 1,
+           20 if ctx.quick else 100,
            lambda n, nm: core.hyp_run(ctx, case_st(), orc, n, name="c07" + nm))
 
 
@@ -915,7 +915,10 @@ def _chunked(ctx, part, total, chunk, fn):
     if ctx.time_left() <= 2.0:
       ctx.budget_s += 10.0
     before = ctx.info.get("_n_" + part, 0)
-    fn(max(1, min(chunk, total - before)), "%s%d" % (part.lower(), k))
+    nm = "%s%d" % (part.lower(), k)
+    fn(max(1, min(chunk, total - before)), nm)
+    r = ctx.info.pop("hyp_rounds_c07" + nm, 0)
+    ctx.info["hyp_rounds_" + part] = ctx.info.get("hyp_rounds_" + part, 0) + r
     k += 1
     if ctx.info.get("_n_" + part, 0) == before:
       break                      # nothing ran (time): do not spin
@@ -932,15 +935,15 @@ def run(ctx):
   cfgs = G.lattice(ctx.tier)
   with _Slice(ctx, 0.65, "B"):
     mb = make_machine_b(ctx, cfgs)
-    _chunked(ctx, "B", (1600 if quick else 16000) // ctx.n + 1,
-             25 if quick else 100,
+    _chunked(ctx, "B", (1200 if quick else 16000) // ctx.n + 1,
+             20 if quick else 100,
              lambda n, nm: core.hyp_machine(
                  ctx, mb, n, step_count=12 if quick else 25, name="c07" + nm))
   tf.keras.backend.clear_session()
   with _Slice(ctx, 1.0, "C"):
     mc = make_machine_c(ctx)
-    _chunked(ctx, "C", (2400 if quick else 24000) // ctx.n + 1,
-             25 if quick else 100,
+    _chunked(ctx, "C", (1600 if quick else 24000) // ctx.n + 1,
+             20 if quick else 100,
              lambda n, nm: core.hyp_machine(
                  ctx, mc, n, step_count=14 if quick else 30, name="c07" + nm))
 
